@@ -1,4 +1,4 @@
-import Gp.Lemmas.ReaderMeasure
+import Gp.Lemmas.ReaderEnd
 import Gp.Lemmas.ReaderSpec
 /-
   C20 — Stream reader returns exactly the delivered bytes; never wedges the assembler.
@@ -20,7 +20,8 @@ import Gp.Lemmas.ReaderSpec
     AsmHeld s   consumer finished without EOF/Close; assembler waits in Reassembled (data unread)
     Ends p      the program contains a Close or a Read-until-EOF
     NoClose p   the program contains no Close
-    spec le bs p   the results a single-threaded reference reader returns on the flat slice stream
+    spec le bs p        results a single-threaded reference reader returns on the flat slice stream
+    specClosed le bs p  whether that reader ends closed (saw EOF or was closed)
     ideal le st    the transcript asked for: per slice a gap mark (LossErrors and Skip ≠ 0), its bytes
     events out     the same for the results: lost ↦ gap mark, data ↦ its bytes, eof ↦ nothing
 -/
@@ -67,7 +68,8 @@ theorem executions_finite (le : Bool) (bs : List Batch) (p : List COp) (n : Nat)
   have := steps_bound (inv_init le bs p) h
   omega
 
-/-- Maximal executions exist (the schedule used by the model driver is one). -/
+/-- Maximal executions exist for every input (the schedule used by the model driver is one), so
+    the hypotheses `Reachable … s` and `Stuck s` of the theorems below are always satisfiable. -/
 theorem maximal_exists (le : Bool) (bs : List Batch) (p : List COp) :
     Reachable (init le bs p) (runInit le bs p) ∧ Stuck (runInit le bs p) :=
   ⟨runFair_reachable _ _, runFair_stuck _ _ (inv_init le bs p) (Nat.lt_succ_self _)⟩
@@ -82,49 +84,183 @@ theorem out_prefix (le : Bool) (bs : List Batch) (p : List COp) (s : State)
   exact ⟨(fut s).1, by unfold spec; rw [← ht]; rfl⟩
 
 /-- Schedule independence: EVERY maximal execution ends with the consumer having finished its
-    program with exactly the reference results, and the assembler done iff the reference reader
-    ends closed — none of which mentions the schedule. -/
+    program with exactly the reference results, the reader closed iff the reference reader is, and
+    the assembler returned iff the reader is closed or there was nothing to deliver — none of
+    which mentions the schedule. -/
 theorem schedule_independent (le : Bool) (bs : List Batch) (p : List COp) (s : State)
     (h : Reachable (init le bs p) s) (hst : Stuck s) :
-    s.out = spec le bs p ∧ s.cpc = .idle ∧ s.cprog = [] ∧
-    (s.apc = .fin ↔ (seqRun le p (bs.flatten, false, false)).2.2.2 = true) := by
+    s.out = spec le bs p ∧ s.cpc = .idle ∧ s.cprog = [] ∧ s.closed = specClosed le bs p ∧
+    (s.apc = .fin ↔ (specClosed le bs p = true ∨ bs = [])) := by
   have hi := inv_reachable le bs p s h
-  obtain ⟨h1, h2, h3⟩ := stuck_end hi hst
+  have h2 := inv2_reachable (inv_init le bs p) (inv2_init le bs p) h
+  obtain ⟨h1, hp, _⟩ := stuck_end hi hst
   have ht := (total_reachable (inv_init le bs p) h).1
   rw [total_init] at ht
   have hf : fut s = ([], qOf s) := by
-    unfold fut pending; rw [h1]; simp only [h2]; rfl
+    unfold fut pending; rw [h1]; simp only [hp]; rfl
   have hto : total s = (s.out, qOf s) := by
     unfold total; rw [hf]; simp
   rw [hto] at ht
-  refine ⟨by unfold spec; rw [← ht], h1, h2, ?_⟩
-  rw [← ht]
-  show s.apc = .fin ↔ s.closed = true
-  obtain ⟨_, hA, hC⟩ := hi
-  unfold InvC at hC; rw [h1] at hC
-  simp only at hC
+  have hcl : s.closed = specClosed le bs p := by unfold specClosed; rw [← ht]; rfl
+  refine ⟨by unfold spec; rw [← ht], h1, hp, hcl, ?_⟩
+  rw [← hcl]
+  exact stuck_asm_status hi h2 hst
+
+/-- Any two maximal executions of the same system end with the same results and the same status
+    of both goroutines. -/
+theorem final_unique (le : Bool) (bs : List Batch) (p : List COp) (s1 s2 : State)
+    (h1 : Reachable (init le bs p) s1) (hs1 : Stuck s1)
+    (h2 : Reachable (init le bs p) s2) (hs2 : Stuck s2) :
+    s1.out = s2.out ∧ (s1.apc = .fin ↔ s2.apc = .fin) ∧ (BothDone s1 ↔ BothDone s2) := by
+  obtain ⟨a1, a2, a3, _, a5⟩ := schedule_independent le bs p s1 h1 hs1
+  obtain ⟨b1, b2, b3, _, b5⟩ := schedule_independent le bs p s2 h2 hs2
+  refine ⟨a1.trans b1.symm, a5.trans b5.symm, ?_⟩
+  unfold BothDone
   constructor
-  · intro hfin
-    cases h3 with
-    | inl _ =>
-      cases hc : s.closed with
-      | true => rfl
-      | false =>
-        cases hf1 : s.first with
-        | true => exact absurd hfin (by
-            intro _
-            have := hC.2.1 hc hf1
-            unfold InvA at hA; rw [hfin] at hA
-            -- fin with first = true and not closed: the consumer never received anything, yet
-            -- aprog = [] and both channels closed is consistent; closed stays false
-            exact absurd rfl (by
-              intro (_ : (0 : Nat) = 0)
-              sorry))
-        | false => have := hC.2.2 hc hf1; rw [hfin] at this; cases this
-    | inr hb => rw [hfin] at hb; rcases hb.2 with hx | hx <;> cases hx
-  · intro hc
-    cases h3 with
-    | inl hfin => exact hfin
-    | inr hb => rw [hb.1] at hc; cases hc
+  · intro h; exact ⟨b5.mpr (a5.mp h.1), b2, b3⟩
+  · intro h; exact ⟨a5.mpr (b5.mp h.1), a2, a3⟩
+
+/-! ## 4. The assembler is never wedged -/
+
+/-- no_wedge: if the consumer calls Close at any point (before, between, in the middle of
+    deliveries, after EOF, twice …) or reads until EOF, every maximal execution ends with BOTH
+    goroutines returned. -/
+theorem no_wedge (le : Bool) (bs : List Batch) (p : List COp) (s : State) (he : Ends p)
+    (h : Reachable (init le bs p) s) (hst : Stuck s) : BothDone s := by
+  obtain ⟨_, h2, h3, _, h5⟩ := schedule_independent le bs p s h hst
+  have hc : specClosed le bs p = true := seqRun_ends le p _ (fun hcl => by cases hcl) he
+  exact ⟨h5.mpr (Or.inl hc), h2, h3⟩
+
+/-- … and likewise whenever some Read of a fixed program returned EOF. -/
+theorem no_wedge_eof (le : Bool) (bs : List Batch) (p : List COp) (s : State)
+    (h : Reachable (init le bs p) s) (hst : Stuck s) (he : .eof ∈ s.out) : BothDone s := by
+  obtain ⟨h1, h2, h3, _, h5⟩ := schedule_independent le bs p s h hst
+  rw [h1] at he
+  have hc : specClosed le bs p = true := seqRun_eof_closed le p _ (fun hcl => by cases hcl) he
+  exact ⟨h5.mpr (Or.inl hc), h2, h3⟩
+
+/-- The assembler is held up only while delivered data is unread: if it is left in Reassembled
+    then the consumer neither closed, nor read until EOF, nor ever saw EOF. -/
+theorem held_only_while_unread (le : Bool) (bs : List Batch) (p : List COp) (s : State)
+    (h : Reachable (init le bs p) s) (hst : Stuck s) (hh : AsmHeld s) :
+    ¬ Ends p ∧ .eof ∉ s.out ∧ bs ≠ [] := by
+  have hnf : s.apc ≠ .fin := by
+    intro hf
+    rcases hh.2.2.2 with hx | hx <;> rw [hf] at hx <;> cases hx
+  refine ⟨fun he => hnf (no_wedge le bs p s he h hst).1, fun he => hnf (no_wedge_eof le bs p s h hst he).1, ?_⟩
+  intro hb
+  exact hnf ((schedule_independent le bs p s h hst).2.2.2.2.mpr (Or.inr hb))
+
+/-! ## 5. The bytes -/
+
+/-- reads_concat: in every maximal execution of a program without Close in which some Read
+    returned EOF, the reads returned exactly the delivered transcript — every byte of every
+    slice in order, and (LossErrors) one DataLost per non-zero Skip, each placed just before the
+    bytes following the gap; without LossErrors no DataLost at all. -/
+theorem reads_concat (le : Bool) (bs : List Batch) (p : List COp) (s : State) (hn : NoClose p)
+    (h : Reachable (init le bs p) s) (hst : Stuck s) (he : .eof ∈ s.out) :
+    events s.out = ideal le bs.flatten ∧ dataOf s.out = allBytes bs.flatten ∧
+    lostCount s.out = (if le then gapCount bs.flatten else 0) := by
+  obtain ⟨h1, _⟩ := schedule_independent le bs p s h hst
+  have hw : WFQ (bs.flatten, false, false) := fun hcl => by cases hcl
+  rw [h1] at he ⊢
+  unfold spec at he ⊢
+  have hc := seqRun_eof_closed le p _ hw he
+  have hwf := seqRun_wfq le p _ hw
+  have hev := seqRun_events le p _ hw hn
+  have hnil : idealQ le (seqRun le p (bs.flatten, false, false)).2 = [] := by
+    unfold idealQ; rw [hwf hc]
+  rw [hnil, List.append_nil, idealQ_false] at hev
+  refine ⟨hev, ?_, ?_⟩
+  · rw [← evBytes_events, hev, evBytes_ideal]
+  · rw [← evGaps_events, hev, evGaps_ideal]
+
+/-- A consumer that reads until EOF (any buffer sizes, never Close) gets everything, then EOF,
+    and both goroutines return. -/
+theorem reads_until_eof (le : Bool) (bs : List Batch) (p : List COp) (s : State) (hn : NoClose p)
+    (he : Ends p) (h : Reachable (init le bs p) s) (hst : Stuck s) :
+    BothDone s ∧ events s.out = ideal le bs.flatten ∧ dataOf s.out = allBytes bs.flatten ∧
+    lostCount s.out = (if le then gapCount bs.flatten else 0) := by
+  obtain ⟨h1, _⟩ := schedule_independent le bs p s h hst
+  have hw : WFQ (bs.flatten, false, false) := fun hcl => by cases hcl
+  have hc := seqRun_ends le p _ hw he
+  have hwf := seqRun_wfq le p _ hw
+  have hev := seqRun_events le p _ hw hn
+  have hnil : idealQ le (seqRun le p (bs.flatten, false, false)).2 = [] := by
+    unfold idealQ; rw [hwf hc]
+  rw [hnil, List.append_nil, idealQ_false] at hev
+  refine ⟨no_wedge le bs p s he h hst, ?_⟩
+  rw [h1]
+  unfold spec
+  refine ⟨hev, ?_, ?_⟩
+  · rw [← evBytes_events, hev, evBytes_ideal]
+  · rw [← evGaps_events, hev, evGaps_ideal]
+
+/-- For ANY program (Close anywhere) and at ANY point of ANY execution, what the reads returned
+    so far is a prefix of the delivered transcript (no byte invented, reordered or duplicated, no
+    spurious or misplaced DataLost). -/
+theorem reads_prefix (le : Bool) (bs : List Batch) (p : List COp) (s : State)
+    (h : Reachable (init le bs p) s) :
+    (∃ rest, events s.out ++ rest = ideal le bs.flatten) ∧
+    (∃ rest, dataOf s.out ++ rest = allBytes bs.flatten) := by
+  obtain ⟨more, hm⟩ := out_prefix le bs p s h
+  have hw : WFQ (bs.flatten, false, false) := fun hcl => by cases hcl
+  obtain ⟨rest, hr⟩ := seqRun_events_prefix le p _ hw
+  rw [idealQ_false] at hr
+  have hsp : (seqRun le p (bs.flatten, false, false)).1 = s.out ++ more := by
+    have := hm.symm; unfold spec at this; exact this
+  rw [hsp] at hr
+  have hev : ∀ a b : List Obs, events (a ++ b) = events a ++ events b := by
+    intro a b
+    induction a with
+    | nil => rfl
+    | cons x r ihx => simp [events, ihx]
+  rw [hev, List.append_assoc] at hr
+  refine ⟨⟨_, hr⟩, ⟨evBytes (events more ++ rest), ?_⟩⟩
+  rw [← evBytes_events, ← evBytes_append, hr, evBytes_ideal]
+
+/-- EOF is sticky: the results of a maximal execution are non-EOF results followed by EOFs only. -/
+theorem eof_sticky (le : Bool) (bs : List Batch) (p : List COp) (s : State)
+    (h : Reachable (init le bs p) s) (hst : Stuck s) :
+    ∃ pre post, s.out = pre ++ post ∧ .eof ∉ pre ∧ AllEof post := by
+  obtain ⟨h1, _⟩ := schedule_independent le bs p s h hst
+  rw [h1]
+  exact seqRun_sticky le p _ (fun hcl => by cases hcl)
+
+/-- A Read with a non-empty buffer never returns (0, nil): it returns at least one byte, or
+    DataLost, or EOF (reader.go's contract for Read). -/
+theorem read_nonempty (le : Bool) (bs : List Batch) (p : List COp) (s : State)
+    (hp : ∀ n, COp.rd n false ∈ p → 1 ≤ n) (h : Reachable (init le bs p) s) :
+    Obs.data [] ∉ s.out := by
+  obtain ⟨more, hm⟩ := out_prefix le bs p s h
+  intro hmem
+  have : Obs.data [] ∈ spec le bs p := by rw [← hm]; exact List.mem_append_left _ hmem
+  exact seqRun_nonempty le p _ (fun hcl => by cases hcl) hp this
+
+/-! ## 6. The code as it is today (Close without the acknowledgement of fix rdr-1) -/
+
+/-- With the ORIGINAL Close, `Read(4)` of an 11-byte delivery followed by `Close()` deadlocks:
+    after consumer, assembler (rendezvous), consumer both goroutines are blocked forever — the
+    consumer in Close at `<-r.reassembled`, the assembler in Reassembled at `<-r.done`. -/
+theorem old_close_deadlocks :
+    let s0 := init false [[⟨[1, 2, 3, 4, 5, 6, 7, 8, 9, 10, 11], 0⟩]] [.rd 4 false, .close]
+    ∃ s1 s2 s3, stepOld s0 .cons = some s1 ∧ stepOld s1 .asm = some s2 ∧ stepOld s2 .cons = some s3 ∧
+      stepOld s3 .asm = none ∧ stepOld s3 .cons = none ∧
+      s3.out = [.data [1, 2, 3, 4]] ∧ s3.cpc = .clRecv ∧ s3.apc = .waitDone := by
+  intro s0
+  refine ⟨_, _, _, rfl, rfl, rfl, ?_, ?_, ?_, ?_, ?_⟩ <;> decide
+
+/-! ## Non-vacuity of the hypotheses -/
+
+example : Ends [.rd 4 false, .close] := ⟨.close, by simp, Or.inl rfl⟩
+example : Ends [.rd 0 true] ∧ NoClose [.rd 0 true] :=
+  ⟨⟨.rd 0 true, by simp, Or.inr ⟨0, rfl⟩⟩, fun op h => by simp at h; rw [h]; simp⟩
+/-- The fixed model on the deadlock scenario: both goroutines return. -/
+example : BothDone (runInit false [[⟨[1, 2, 3, 4, 5, 6, 7, 8, 9, 10, 11], 0⟩]] [.rd 4 false, .close]) :=
+  no_wedge _ _ _ _ ⟨.close, by simp, Or.inl rfl⟩ (maximal_exists _ _ _).1 (maximal_exists _ _ _).2
+/-- A maximal execution in which the assembler is legitimately held (data unread, no Close). -/
+example : AsmHeld (runInit true [[⟨[1, 2, 3], 5⟩]] [.rd 2 false]) := by unfold AsmHeld; decide
+/-- A gap on an empty slice is reported (fix rdr-2), then EOF. -/
+example : (runInit true [[⟨[7], 0⟩, ⟨[], 6⟩]] [.rd 0 true]).out = [.data [7], .lost, .eof] := by decide
 
 end Gp.C20
